@@ -182,13 +182,19 @@ Section WithPreparer.
     fold_left (fun st o => fst (step o st)) ops s.
 
   (* ---- the background re-prepare, split at its await -------------------------
-     cache.py:233-262 _reprepare_and_update_cache.  NOT part of the sequential
-     C15 model above (C16 models the tasks and the event loop); it is here only
-     to state the lost-update finding of the concurrent stream precisely:
-         cached = __CACHE.get(key)                       [rp_begin]
-         outcome = await preparer(name, deepcopy(cached.spec))     <- may suspend
-         __CACHE[key] = cached._replace(resource=..., prepared_at=...)   [rp_end]
-     rp_end stores the entry READ BEFORE the await, whatever the cache holds now. *)
+     cache.py:233-275 _reprepare_and_update_cache (as repaired by 033ed5d).  NOT
+     part of the sequential C15 model above (C16 models the tasks and the event
+     loop); it is here to state what a re-prepare that overlaps offers / deletes
+     of the same resource may do to the cache:
+         cached = __CACHE.get(key); started = monotonic()             [rp_begin]
+         outcome = await preparer(name, deepcopy(cached.spec))   <- may suspend
+         finished = monotonic()
+         if __CACHE.get(key) is not cached: return                    [rp_end]
+         __CACHE[key] = cached._replace(resource=..., prepared_at=started)
+     `is` compares object identity.  Every entry object is created with its own
+     prepare_started_at, a fresh reading of the (strictly increasing) clock, so
+     in the model two entries are the same object iff their [e_prepared_at]
+     agree ([same_object]; Cache_proofs.stamped shows the stamps are fresh). *)
   Definition rp_begin (k : key) (s : state) : option (entry * presult * nat * state) :=
     match lookup k (cache s) with
     | None => None
@@ -196,11 +202,20 @@ Section WithPreparer.
                       State (cache s) (S (clock s)) (k :: preps s))
     end.
 
+  Definition same_object (a b : entry) : bool := Nat.eqb (e_prepared_at a) (e_prepared_at b).
+
   Definition rp_end (k : key) (read : entry) (p : presult) (started : nat) (s : state) : state :=
     match value_of_presult p with
-    | None => State (cache s) (S (clock s)) (preps s)          (* preparer raised: nothing stored *)
-    | Some v => State (set_entry k (Entry (e_spec read) v (e_version read) started (e_sysdata read)) (cache s))
-                      (S (clock s)) (preps s)
+    | None => s                                   (* the preparer raised: nothing after the await runs *)
+    | Some v =>
+        match lookup k (cache s) with
+        | Some cur =>
+            if same_object cur read
+            then State (set_entry k (Entry (e_spec read) v (e_version read) started (e_sysdata read)) (cache s))
+                       (S (clock s)) (preps s)
+            else State (cache s) (S (clock s)) (preps s)     (* replaced meanwhile: the newer state wins *)
+        | None => State (cache s) (S (clock s)) (preps s)    (* deleted meanwhile: stays deleted *)
+        end
     end.
 
   (* ---- the specification: a plain map  key -> (version, result) ---------- *)
